@@ -6,6 +6,7 @@ Model: DSModel/Wire/Quantiles.lean, tied to quantiles_sketch_impl.hpp by `./chec
 All statements: every lawful item serde, every constant set with `CfgOK`, every well-formed image
 (any serial version the reader accepts), every tail.
 -/
+import DSModel.Wire.QuantilesCode
 import DSProofs.Lemmas.WireQuantQuantiles
 namespace DS.Wire.Quantiles
 open Reader
@@ -74,5 +75,14 @@ def exImage : Image :=
 example : WF (Serde.fixed 8) docCfg exImage = true := by decide
 example : Current docCfg exImage = true := by decide
 example : WF Serde.lpString docCfg { pre := 1, ver := 3, flags := 28, k := 128, unused := 0, body := none } = true := by decide
+
+/-- the constants the CURRENT headers define satisfy the side conditions, so the theorems above apply to the model the
+correspondence check runs (`codeCfg` = DSGen values; a changed flag position / size constant breaks this obligation) -/
+theorem codeCfg_ok : CfgOK codeCfg := by decide
+
+/-- round trip at the constants of the current headers -/
+theorem decode_encode_code (sd : Serde) (hs : sd.Lawful) (s : Image) (tail : Bytes) (hw : WF sd codeCfg s = true) :
+    decode sd codeCfg (encode sd codeCfg s ++ tail) = some (s, tail) :=
+  decode_encode sd hs codeCfg codeCfg_ok s tail hw
 
 end DS.Wire.Quantiles
